@@ -65,14 +65,14 @@ def unpack(t, d):
             f.write(b)
 
 
-def fuzz(t, seeds_dir, new_dir, seconds, forks=None):
+def fuzz(t, seeds_dir, new_dir, seconds, forks=None, seed=1):
     os.makedirs(new_dir, exist_ok=True)
     exe = os.path.join(BIN, t)
     forks = forks or max(2, min(NCPU - 2, 12))
     art = os.path.join(new_dir, "..", "artifacts") + os.sep
     os.makedirs(art, exist_ok=True)
     cmd = [exe, new_dir, seeds_dir, "-max_len=%d" % TARGETS[t], "-max_total_time=%d" % seconds, "-fork=%d" % forks, "-ignore_crashes=1", "-ignore_timeouts=1", "-ignore_ooms=1",
-           "-timeout=5", "-rss_limit_mb=2048", "-artifact_prefix=" + art, "-print_final_stats=0", "-verbosity=0"]
+           "-timeout=5", "-rss_limit_mb=2048", "-seed=%d" % (seed + 1), "-artifact_prefix=" + art, "-print_final_stats=0", "-verbosity=0"]
     try:
         rc, out = sh(cmd, cwd=new_dir, timeout=seconds + 60)
     except subprocess.TimeoutExpired:
@@ -118,15 +118,26 @@ def lines(t, seconds, seed=0):
     w = os.path.join(WORK, tag)
     done = os.path.join(w, "DONE")
     note = "libFuzzer %ds on /repo's tree" % seconds
+    os.makedirs(WORK, exist_ok=True)
+    import fcntl
+    lockf = open(os.path.join(WORK, t + ".lock"), "w")
+    fcntl.flock(lockf, fcntl.LOCK_EX)        # checks running side by side share one run per target instead of trampling on it
+    try:
+        return _lines_locked(t, seconds, w, done, note, seed)
+    finally:
+        fcntl.flock(lockf, fcntl.LOCK_UN); lockf.close()
+
+
+def _lines_locked(t, seconds, w, done, note, seed=1):
     if not os.path.exists(done):
         # one run per (target, source tree, budget, seed): the properties that share a domain reuse it
         shutil.rmtree(w, ignore_errors=True)
         for old in (os.listdir(WORK) if os.path.isdir(WORK) else []):
-            if old.startswith(t + "-"):
+            if old.startswith(t + "-") and os.path.isdir(os.path.join(WORK, old)):
                 shutil.rmtree(os.path.join(WORK, old), ignore_errors=True)
         seeds, new = os.path.join(w, "seeds"), os.path.join(w, "new")
         unpack(t, seeds)
-        rc, out, art = fuzz(t, seeds, new, seconds)
+        rc, out, art = fuzz(t, seeds, new, seconds, seed=seed)
         crashes = read_dir(art)
         # inputs on which the target itself crashed (a panic / abort in the code under test) are cases too
         for i, b in enumerate(crashes):
